@@ -122,6 +122,7 @@ class Run(object):
             # (that dlopen does not go through the backend) and accounts for it.
             import _ctypes
             h = _ctypes.dlopen(self.check.libpath, 2)       # RTLD_NOW
+            self.check.shim.cffi_verif_note_open(ctypes.c_void_p(h))
             self.handles[h] = self.handles.get(h, 0) + 1
             if h not in self.hord:
                 self.hord[h] = len(self.hord)
